@@ -16,11 +16,11 @@ import (
 
 // Item is one unit of work of a check (a sched scenario or a seq job).
 type Item struct {
-	Kind     string `json:"kind"` // sched | seq | race
-	Name     string `json:"name"`
-	Bound    int    `json:"bound,omitempty"`
-	Shards   int    `json:"shards"`
-	BudgetS  int    `json:"budget_s"`
+	Kind    string `json:"kind"` // sched | seq | race
+	Name    string `json:"name"`
+	Bound   int    `json:"bound,omitempty"`
+	Shards  int    `json:"shards"`
+	BudgetS int    `json:"budget_s"`
 }
 
 func main() {
